@@ -335,6 +335,7 @@ func c06Run(c *ev.Ctx) {
 	}
 	if sf != nil {
 		c06VsDecoder(c, dp, sf, wit)
+		c06AttrsVsDecoder(c, dp, sf, wit)
 	}
 
 	// ---- oracle 1: h5dump DDL
@@ -775,10 +776,50 @@ func c06VsDecoder(c *ev.Ctx, dp *dump.Dump, sf *specdec.File, wit func(string, a
 	}
 }
 
+// c06AttrsVsDecoder: variable-length string attributes (an array of references into global
+// heap collections) must come back element by element as the decoder resolves them.
+func c06AttrsVsDecoder(c *ev.Ctx, dp *dump.Dump, sf *specdec.File, wit func(string, any) map[string]any) {
+	for _, o := range dp.Objects {
+		if !o.AttrsRes.OK() || len(o.Attrs) == 0 {
+			continue
+		}
+		so, err := sf.Resolve(o.Path)
+		if err != nil || so == nil {
+			continue
+		}
+		byName := map[string]*specdec.Attr{}
+		for i := range so.Attrs {
+			byName[so.Attrs[i].Name] = &so.Attrs[i]
+		}
+		for _, a := range o.Attrs {
+			sa := byName[a.Name]
+			if sa == nil || !a.ValueRes.OK() || !a.HasStr || sa.Type == nil || sa.Type.Class != 9 || !sa.Type.VLenIsString {
+				continue
+			}
+			els, verr := sf.VLenElements(sa.Raw, sa.Type)
+			if verr != nil {
+				continue
+			}
+			c.Count("vlen_string_attributes_compared_with_decoder", 1)
+			if len(els) != len(a.Strs) {
+				c.Violation("decoder-diff:attr-vlen-string:length", wit(o.Path+"@"+a.Name, map[string]any{"reader": len(a.Strs), "decoder": len(els)}))
+				continue
+			}
+			for i := range els {
+				want := strings.TrimRight(string(els[i]), "\x00")
+				if got := strings.TrimRight(a.Strs[i], "\x00"); got != want {
+					c.Violation("decoder-diff:attr-vlen-string:element", wit(o.Path+"@"+a.Name, map[string]any{"index": i, "reader": got, "decoder": want, "elements": len(els)}))
+					break
+				}
+			}
+		}
+	}
+}
+
 var C06 = &ev.Property{
 	ID:    "C06",
 	Level: "exploration",
-	Rule: "one case per file of the bundled reference corpus (testdata/*.h5, testdata/hdf5_official, testdata/reference, testdata/c-library-corpus; the corpus is enumerated completely in both tiers): the file is opened with the library's reader and dumped completely (Walk, Info, Read, ReadStrings, ReadCompound, Attributes, ReadValue); what the reader returned without error is compared (1) with every h5dump DDL of testdata/hdf5_official/ddl that names the file (members incl. links, kinds, shapes, datatype class/size/sign/order, element values with %g tolerance for floats, strings, compound members, attribute names and values; only complete dumps are compared value-wise) and (2) with the independent decoder's values for every numeric dataset. " +
+	Rule: "one case per file of the bundled reference corpus (testdata/*.h5, testdata/hdf5_official, testdata/reference, testdata/c-library-corpus; the corpus is enumerated completely in both tiers): the file is opened with the library's reader and dumped completely (Walk, Info, Read, ReadStrings, ReadCompound, Attributes, ReadValue); what the reader returned without error is compared (1) with every h5dump DDL of testdata/hdf5_official/ddl that names the file (members incl. links, kinds, shapes, datatype class/size/sign/order, element values with %g tolerance for floats, strings, compound members, attribute names and values; only complete dumps are compared value-wise) and (2) with the independent decoder's values for every numeric dataset and every variable-length string attribute (element by element through the global heap). " +
 		"distinct = file; a file is non-trivial when it is non-empty.",
 	Assumptions: []string{
 		"h5dump prints floating point with 6 significant digits: float comparisons allow a relative error of 1e-5, integers must be exact",
